@@ -62,7 +62,7 @@ Proof.
   pose proof (chunkDur_pos_inv segDurMS atoMS ts ltac:(lia)) as Hp.
   assert (Hd0 : 0 <= c_dur c0).
   { pose proof (chunkSegment_span _ _ _ _ _ _ _ HC Hwf H) as Hs'. apply Forall_cons_iff in Hs'. destruct Hs' as [(A & _ & _) _].
-    destruct Hwf as (Hd' & _). apply chunkSegment_ok in H. destruct H as [_ H].
+    destruct Hwf as (Hd' & _). apply chunkSegment_ok in H.
     assert (0 <= chunk_span c0); [|lia].
     assert (G : forall fs cur styp nr this total dt, Forall (fun s => 0 <= s_dur s) fs -> Forall (fun s => 0 <= s_dur s) cur ->
               Forall (fun c => Forall (fun s => 0 <= s_dur s) (c_samples c)) (chunk_loop (chunkDurOf segDurMS atoMS ts) newNr fs cur styp nr this total dt)).
